@@ -193,7 +193,7 @@ impl<F: FixedChannelRegion> RegionHandler for FixedChannelPlan<F> {
         rng: &mut RNG,
         datarate: DR,
         frame: &Frame,
-    ) -> TxChannel {
+    ) -> Option<TxChannel> {
         let (dr, channel) = match frame {
             Frame::Join => {
                 let channel = self.join_channels.get_next_channel(rng);
@@ -205,6 +205,7 @@ impl<F: FixedChannelRegion> RegionHandler for FixedChannelPlan<F> {
                 (dr, channel)
             }
             Frame::Data => {
+                let bandwidth = F::datarates().get(datarate as usize)?.as_ref()?.bandwidth;
                 // The join bias gets reset after receiving CFList in Join Frame
                 // or ChannelMask in the LinkADRReq in Data Frame.
                 // If it has not been reset yet, we continue to use the bias for the data frames.
@@ -223,8 +224,7 @@ impl<F: FixedChannelRegion> RegionHandler for FixedChannelPlan<F> {
                 // subband that  the join succeeded on. That channel is a 125 kHz one, so it is
                 // only usable with a 125 kHz datarate and if the channel mask enables it.
                 } else if let Some(channel) = self.join_channels.first_data_channel(rng)
-                    && F::datarates()[datarate as usize].as_ref().unwrap().bandwidth
-                        != Bandwidth::_500KHz
+                    && bandwidth != Bandwidth::_500KHz
                     && self.channel_mask.is_enabled(channel.into()).unwrap_or(false)
                 {
                     (datarate, channel)
@@ -232,7 +232,11 @@ impl<F: FixedChannelRegion> RegionHandler for FixedChannelPlan<F> {
                     // For the data frame, the datarate impacts which channel sets we can choose
                     // from. If the datarate bandwidth is 500 kHz, we must use
                     // channels 64..=71. Else, we must use 0-63
-                    let bandwidth = F::datarates()[datarate as usize].as_ref().unwrap().bandwidth;
+                    // Sampling only ends on an enabled channel of that set
+                    let candidates = if bandwidth == Bandwidth::_500KHz { 64..72 } else { 0..64 };
+                    if !candidates.into_iter().any(|i| self.channel_mask.is_enabled(i).unwrap_or(false)) {
+                        return None;
+                    }
                     if bandwidth == Bandwidth::_500KHz {
                         let mut channel = (rng.next_u32() & 0b111) as u8;
                         // keep selecting a random channel until we find one that is enabled
@@ -251,12 +255,12 @@ impl<F: FixedChannelRegion> RegionHandler for FixedChannelPlan<F> {
                 }
             }
         };
-        TxChannel {
-            datarate: F::datarates()[dr as usize].clone().unwrap(),
+        Some(TxChannel {
+            datarate: F::datarates()[dr as usize].clone()?,
             dr,
             frequency: F::uplink_channels()[channel as usize],
             rx1_frequency: F::downlink_channels()[(channel % 8) as usize],
-        }
+        })
     }
 
     fn get_rx2_frequency(&self) -> u32 {
